@@ -298,11 +298,20 @@ def pipeline_cases(ctx, tab):
         sat = "noaa16" if fmt.startswith("klm") else "noaa14"
         start = ydm_to_ms(2002, 187, 40000000) if fmt.startswith("klm") else ydm_to_ms(2000, 322, 40000000)
         n0 = rng.choice([1, 3, 4])
-        tp = timesgen.TimePass(fmt, list(range(n0, n0 + n)), start)
+        nums_file = list(range(n0, n0 + n))
+        cls = filegen.reader_class(fmt)
+        if k == 0:
+            # a KLM LAC pass whose line numbers span more than 32767 across one data gap (FRAC orbits have ~36000 lines):
+            # the unsigned 16-bit numbers must reach the calibration as they are (line-number sanitising, C11's subject, off)
+            fmt, sat, n = "klmLac", "noaa16", 50
+            start = ydm_to_ms(2002, 187, 40000000)
+            nums_file = list(range(n0, n0 + 25)) + list(range(n0 + 32800, n0 + 32825))
+            cls = type("LACKLMNoSanitise", (filegen.reader_class(fmt),), {"correct_scan_line_numbers": lambda self: {}})
+        tp = timesgen.TimePass(fmt, nums_file, start)
         b = tp.build(ctx, rng)
         b.samples = b.nprng.integers(300, 950, size=b.samples.shape, dtype=np.uint32)
         data = b.tobytes()
-        r = filegen.reader_class(fmt)(tle_dir=filegen.tle_dir(ctx), tle_name="TLE_%(satname)s.txt", adjust_clock_drift=False)
+        r = cls(tle_dir=filegen.tle_dir(ctx), tle_name="TLE_%(satname)s.txt", adjust_clock_drift=False)
         r.read(b.dsname, fileobj=io.BytesIO(data))
         if r.is_tsm_affected():
             continue
@@ -310,11 +319,17 @@ def pipeline_cases(ctx, tab):
         # earth counts as written to the file (sample 5*p + c), not as reported by the reader
         counts = np.asarray(b.samples, dtype=np.int64).reshape(n, -1, 5)
         nums = [int(x) for x in r.scans["scan_line_number"]]
-        with warnings.catch_warnings():
-            warnings.simplefilter("ignore")
-            ch = r.get_calibrated_channels()
-            if k % 2:
-                ch = r.get_calibrated_channels()     # the second request on the same reader
+        try:
+            with warnings.catch_warnings():
+                warnings.simplefilter("ignore")
+                ch = r.get_calibrated_channels()
+                if k % 2:
+                    ch = r.get_calibrated_channels()     # the second request on the same reader
+        except Exception as e:      # noqa - these passes are calibratable: an exception is a failure of the procedure
+            ctx.violation("%s pipeline, line numbers %s..%s: calibration raised %s: %s" % (
+                fmt, nums_file[0], nums_file[-1], type(e).__name__, e), {"fmt": fmt, "stream": "pipeline", "n0": n0, "nums": nums_file},
+                cls="thermal-pipeline-raises:%s" % type(e).__name__)
+            continue
         for ci, chan in enumerate((3, 4, 5)):
             col = {3: -3, 4: -2, 5: -1}[chan]
             cidx = 2 + ci
